@@ -87,6 +87,11 @@ type Config struct {
 	// norm: contents produced by the normalisation pass (helpers extracted by a refactoring
 	// inlined back); layered over Overlay, not part of what Blind looks at
 	norm map[string][]byte
+	// fixed at the first load of a normalisation sequence: which raw construct names are new
+	// helpers to inline, and which are renamed pinned functions (raw name -> pinned name); later
+	// loads of the same sequence must not re-derive them from bodies that inlining has changed
+	newNames   map[string]bool
+	aliasNames map[string]string
 }
 
 // Decimal field indexes (re-derived from the struct at load time).
@@ -132,18 +137,33 @@ func Load(cfg Config) *Model {
 		return m
 	}
 	var notes []string
-	for round := 0; round < 24; round++ {
+	// what is new and what is merely renamed is decided once, on the tree as given
+	cfg.newNames = map[string]bool{}
+	cfg.aliasNames = map[string]string{}
+	for fn, a := range m.alias {
+		cfg.aliasNames[m.rawName(fn)] = a
+	}
+	for _, fn := range m.Funcs {
+		if fn.Parent() != nil || fn.Object() == nil || fn.Object().Exported() {
+			continue
+		}
+		raw := m.rawName(fn)
+		if _, aliased := cfg.aliasNames[raw]; aliased {
+			continue
+		}
+		if _, known := pinnedFP[cfg.Name][raw]; !known {
+			cfg.newNames[raw] = true
+		}
+	}
+	m.Cfg.newNames, m.Cfg.aliasNames = cfg.newNames, cfg.aliasNames
+	for round := 0; round < 24 && len(cfg.newNames) > 0; round++ {
 		cur := m
 		isNew := func(f *types.Func) bool {
 			fn := cur.Prog.FuncValue(f)
 			if fn == nil || fn.Parent() != nil || f.Exported() {
 				return false
 			}
-			if _, aliased := cur.alias[fn]; aliased {
-				return false
-			}
-			_, known := pinnedFP[cfg.Name][cur.rawName(fn)]
-			return !known
+			return cfg.newNames[cur.rawName(fn)]
 		}
 		merged := map[string][]byte{}
 		for k, v := range cfg.Overlay {
@@ -224,9 +244,7 @@ func (m *Model) dropUncalledNew() {
 		for root.Parent() != nil {
 			root = root.Parent()
 		}
-		_, known := pinnedFP[m.Cfg.Name][m.rawName(root)]
-		_, aliased := m.alias[root]
-		if !known && !aliased && root.Object() != nil && !root.Object().Exported() && !called[root] {
+		if m.Cfg.newNames[m.rawName(root)] && !called[root] {
 			continue
 		}
 		keep = append(keep, fn)
